@@ -1,13 +1,16 @@
 #!/bin/bash
-# Build the framework from files on disk only (offline): Coq development, OCaml drivers, Rust harness.
-set -e
+# Build the framework from files on disk only (offline): Coq development, OCaml drivers, Rust harnesses.
+# Nothing here decides a property; every ./check rebuilds what it needs, so partial failures are tolerated (-k / --keep-going).
 cd "$(dirname "$0")"
 export CARGO_NET_OFFLINE=true
 mkdir -p build evidence
-for g in tools/gen/gen_*.py; do [ -f "$g" ] && python3 "$g"; done
+for g in tools/gen/gen_*.py; do [ -f "$g" ] && python3 "$g" >/dev/null; done
 tools/mkcoqproject.sh
-(cd coq && timeout 3000 make -j16 2>&1 | tail -5)
-for ml in driver/c*.ml; do id=$(basename $ml .ml); [ -f build/$id/model.ml ] && tools/build_driver.sh $id; done
+(cd coq && timeout 5000 make -k -j16 2>&1 | tail -3)
+for ml in driver/c*.ml; do id=$(basename $ml .ml); [ -f build/$id/model.ml ] && tools/build_driver.sh $id >/dev/null 2>&1; done
 [ -f harness/Cargo.lock ] || cp /repo/Cargo.lock harness/Cargo.lock
-(cd harness && timeout 3000 cargo build --offline --bins 2>&1 | tail -3)
+(cd harness && timeout 5000 cargo build --offline --bins --keep-going 2>&1 | tail -2)
+for d in harness-reg harness/c18nowat; do
+  if [ -f $d/Cargo.toml ]; then [ -f $d/Cargo.lock ] || cp /repo/Cargo.lock $d/Cargo.lock; (cd $d && timeout 5000 cargo build --offline --bins --keep-going 2>&1 | tail -1); fi
+done
 echo setup-done
